@@ -27,8 +27,9 @@ type tcpHandler struct {
 	tcpListener    *net.TCPListener
 	isListenClosed int32
 
-	pool  *gpool.Pool
-	conns sync.Map
+	pool        *gpool.Pool
+	poolRelease sync.Once
+	conns       sync.Map
 }
 
 type connInfo struct {
@@ -143,9 +144,6 @@ func (t *tcpHandler) Handle() error {
 			t.conns.Delete(key)
 		}(conn)
 	}
-	if t.pool != nil {
-		t.pool.Release()
-	}
 	return nil
 }
 
@@ -200,6 +198,11 @@ func (t *tcpHandler) CloseIdles(n int64) bool {
 		conn.conn.Close()
 		return true
 	})
+	if allClosed && t.pool != nil {
+		// the receive loops hand requests to the pool until their connections are
+		// closed, so the workers may only go once every connection has drained
+		t.poolRelease.Do(t.pool.Release)
+	}
 	return allClosed
 }
 
